@@ -146,7 +146,7 @@ PROPS = {
     "C18": {"level": "model_checking", "stages": [MINTER_SCHED, DIST_CUR, VEST_POOLS, VEST_TRACE, VEST_HUGE], "assumptions": TRUST},
     "C19": {"level": "model_checking", "stages": [MINTER_MC, MINTER_SCHED, MINTER_UPD, MINTER_NUM], "assumptions": TRUST + ["inflation is compared with the model value within 2/P (the model truncates the same rational at 1/P twice)"]},
     "C05": {"level": "model_checking", "stages": [VEST_MC, VEST_POOLS, VEST_TRACE, VEST_HUGE], "assumptions": VEST_ASSUME},
-    "C06": {"level": "model_checking", "stages": [VEST_MC, VEST_POOLS, VEST_TRACE, VEST_HUGE], "assumptions": VEST_ASSUME},
+    "C06": {"level": "model_checking", "stages": [VEST_MC, VEST_POOLS, VEST_TWO, VEST_TRACE, VEST_HUGE], "assumptions": VEST_ASSUME},
     "C08": {"level": "model_checking", "stages": [VEST_MC, VEST_POOLS, VEST_ACCTS, SPLIT_NUM, VEST_TRACE], "assumptions": VEST_ASSUME},
     "C07": {"level": "model_checking", "stages": [VEST_MC, SPLIT_DRIFT, SPLIT_NUM, VEST_ACCTS, VEST_TWO, VEST_TRACE],
             "assumptions": VEST_ASSUME + ["real-magnitude steps (amounts to 10^30) are single splits on fresh accounts; Apalache 0.58 evaluates spec/VestingMath.tla at P = 10^18"]},
